@@ -377,7 +377,10 @@ elif what.startswith("seedonly:"):
                     np.random.seed(len(res) + 99 + seed % 7)  # noqa: NPY002
                     np.random.rand(17)  # noqa: NPY002
                 w = f(scf, seed=seed)
-                res.append(hashlib.sha1(np.concatenate([np.asarray(x).ravel() for x in w]).tobytes()).hexdigest())  # noqa: S324
+                ws = f(scf, seed=seed, symmetric=True)  # same coefficients in both spin channels
+                res.append(hashlib.sha1(np.concatenate([np.asarray(x).ravel() for x in w] + [np.asarray(x).ravel() for x in ws]).tobytes()).hexdigest())  # noqa: S324
+                if any(np.shape(x)[0] != 2 or not np.array_equal(np.asarray(x)[0], np.asarray(x)[1]) for x in ws):
+                    differs = True
             alld[str(seed)] = res
             differs = differs or len(set(res)) != 1
         firsts = [v[0] for v in alld.values()]
